@@ -149,6 +149,7 @@ func genC04(g *G) {
 		w := newWorld(g)
 		w.hasPred = false
 		w.exact = i%4 == 3 // a clock that ticks in whole report intervals: windows exactly one interval long
+		w.pred2 = false    // (the handover op wires instance A's report to the one token of predecessor 1)
 		cfgA := w.cfgJ()
 		chans := []int{1, 2, 3, 4}
 		defsOf := map[int]J{}
